@@ -185,7 +185,8 @@ func (d *Decoder) decodeValue(value reflect.Value) {
 		}
 
 	case reflect.Ptr:
-		if o, ok := value.Interface().(Object); ok {
+		// enums are objects too, but they are encoded as bare crc code, like any uint32 value
+		if o, ok := value.Interface().(Object); ok && value.Type().Elem().Kind() == reflect.Struct {
 			d.decodeObject(o, false)
 		} else {
 			d.decodeValue(value.Elem())
@@ -324,6 +325,13 @@ func (d *Decoder) decodeRegisteredObject() Object {
 		return nil
 	}
 
+	if _, isEnum := enumCrcs[crc]; isEnum {
+		// enums are registered by value (named uint32), value of enum is crc code itself
+		e := reflect.New(_typ).Elem()
+		e.SetUint(uint64(crc))
+		return e.Interface().(Object)
+	}
+
 	o := reflect.New(_typ.Elem()).Interface().(Object)
 
 	if m, ok := o.(Unmarshaler); ok {
@@ -335,12 +343,10 @@ func (d *Decoder) decodeRegisteredObject() Object {
 		return o
 	}
 
-	if _, isEnum := enumCrcs[crc]; !isEnum {
-		d.decodeObject(o, true)
-		if d.err != nil {
-			d.err = errors.Wrapf(d.err, "decode registered object %T", o)
-			return nil
-		}
+	d.decodeObject(o, true)
+	if d.err != nil {
+		d.err = errors.Wrapf(d.err, "decode registered object %T", o)
+		return nil
 	}
 
 	return o
